@@ -64,6 +64,7 @@ type Cfg struct {
 	NoHooks  bool   `json:"passive_hooks,omitempty"`
 	WdRel    string `json:"working_directory,omitempty"`  // working directory below the case root (default "wd"), e.g. one with blanks in its name
 	SlowErr  bool   `json:"slow_stderr_reader,omitempty"` // the subject's stderr is a pipe whose reader takes 128 kB every 10 ms
+	Debug    bool   `json:"debug_log,omitempty"`          // the library logs at its DEBUG level (InitLogDebug before the workflow is made)
 	Quiet    bool   `json:"quiet_log,omitempty"`          // the library logs errors only (its logger's mutex is one more synchronisation the race detector sees)
 }
 
@@ -85,6 +86,9 @@ func (c Cfg) env() map[string]string {
 	}
 	if c.Quiet {
 		e["VERIF_QUIETLOG"] = "1"
+	}
+	if c.Debug {
+		e["VERIF_DEBUGLOG"] = "1"
 	}
 	if c.NoHooks {
 		e["VERIF_EVLOG"] = "" // passive hooks: no event log, no monitor mutex between the goroutines
